@@ -321,7 +321,14 @@ def run_duo7(case):
                            key_pred=lambda k: not (k.startswith("session:posterior:weights") or k.startswith("session:evidence") or k.startswith("session:trim")))
 
 
-KINDS = {"duo": run_duo7, "session": run_session, "kernel": run_kernel, "hole": run_hole, "pipe": run_pipe, "pipe1": run_pipe1}
+def run_cross7(case):
+    """A checkpoint written under options A resumed by a fresh sampler with options B (other particle count, kernel, resampler, clustering,
+    targets of the schedule, evaluation mode, boundaries): record coherence at every step boundary of the resumed run, loaded history untouched."""
+    from mc import session
+    return session.run_cross_resume(case, lambda: [coherent_monitor("pipe", resumed=True)])
+
+
+KINDS = {"cross": run_cross7, "duo": run_duo7, "session": run_session, "kernel": run_kernel, "hole": run_hole, "pipe": run_pipe, "pipe1": run_pipe1}
 
 FACTORS = [
     ("sample", ["tpcn", "rwm"]),
@@ -388,6 +395,8 @@ def plan(ctx):
                         ({"eval": "vec"}, {"eval": "vec", "target": "bimodal", "n_particles": 12}))
            for sh in range(2)]
     ctx.explore("two-samplers-interleaved", duo)
+    from mc import session as _s2
+    ctx.explore("resume-with-other-options", [{"kind": "cross", "cfg": dict(n_particles=16, d=2, n_total=48, eval="scalar", clustering=False), "pair": list(pr), "base": ctx.seed + b} for pr in _s2.CROSS for b in ((0, 5) if th else (0,))])
     ctx.bounds.update({"session": {"alphabet": ["S (iterate)", "V0/V1 (save_state to slot)", "L0/L1 (load_state from slot)"], "depth": "all sequences to depth 7 (thorough) / 5 (quick) + 57 longer save/branch/roll-back patterns (length <= 9)", "warm_iterations": 3}})
     rows = lattice.covering_array(FACTORS, strength=3 if th else 2, seed=ctx.seed)
     cov, tot = lattice.count_covered(rows, FACTORS, 3 if th else 2)
